@@ -284,7 +284,7 @@ class Evaluator:
         if k in ('CallExpr', 'CXXMemberCallExpr') and n.get('callee', {}).get('inrepo') and self.depth < 3:
             # a file-local helper without effects that computes a value: evaluate it on the translated model
             cf = fn.prog.funcs.get(n['callee']['usr'])
-            if cf is not None and (cf.rec.get('internal') or '(anonymous namespace)' in cf.qname) and cf.body is not None and cf.rec.get('ret') != 'void':
+            if cf is not None and (cf.rec.get('internal') or '(anonymous namespace)' in cf.qname or is_own_lookup(fn, n, cf)) and cf.body is not None and cf.rec.get('ret') != 'void':
                 try:
                     import effects as FX
                     pure = not [e for e in FX.get(fn.prog).events_of(cf) if e[1] != 'local' and e[3] != 'io']
@@ -372,6 +372,17 @@ def is_throwing_helper(cf):
     return False
 
 
+def is_own_lookup(fn, n, cf):
+    """a const member function of the same class called on *this that may throw (pointIdx, parameterIdx):
+    its outcome is part of the caller's decision"""
+    if cf is None or cf.implicit or cf.body is None or not cf.rec.get('const') or cf.cls != fn.cls or n['k'] != 'CXXMemberCallExpr':
+        return False
+    if not any(x['k'] == 'CXXThrowExpr' for x in cf.nodes):
+        return False
+    o = fn.nodes[fn.strip(n.get('obj', -1), 'all')] if n.get('obj') is not None else None
+    return o is not None and o['k'] == 'CXXThisExpr'
+
+
 def translate_model(fn, ev, n, cf, model):
     """the caller's model in the callee's terms: atoms rooted at an actual argument / the object
     become atoms rooted at argN / this; scalar arguments are evaluated"""
@@ -409,6 +420,37 @@ def translate_model(fn, ev, n, cf, model):
     return m2
 
 
+STD_BASES = {'std::out_of_range': ['std::logic_error', 'std::exception'], 'std::invalid_argument': ['std::logic_error', 'std::exception'],
+             'std::length_error': ['std::logic_error', 'std::exception'], 'std::domain_error': ['std::logic_error', 'std::exception'],
+             'std::logic_error': ['std::exception'], 'std::range_error': ['std::runtime_error', 'std::exception'],
+             'std::overflow_error': ['std::runtime_error', 'std::exception'], 'std::runtime_error': ['std::exception'],
+             'std::ios_base::failure': ['std::system_error', 'std::runtime_error', 'std::exception'], 'std::bad_alloc': ['std::exception']}
+
+
+def find_handler(fn, g, v, thrown):
+    """first vertex of the innermost enclosing handler at vertex v that catches type `thrown`
+    (catch by value/reference of the type, one of its bases, or catch (...)); else None"""
+    tries = list(g.try_of_vertex.get(v, []))
+    # innermost try first: the one with the smallest body containing the vertex's node
+    nid = g.node_of(v)
+    tries.sort(key=lambda t: len(fn.descendants(fn.nodes[t]['body'])))
+    hb = {}
+    for b in g.blocks.values():
+        if b.get('labelk') == 'CXXCatchStmt' and b.get('label', -1) >= 0:
+            hb[b['label']] = b['id']
+    for t in tries:
+        for h in fn.nodes[t]['handlers']:
+            hn = fn.nodes[h]
+            ct = (hn.get('catch_t') or '').replace('const ', '').replace(' &', '').strip()
+            if hn.get('catch_all') or ct == thrown or ct in STD_BASES.get(thrown, []):
+                if h in hb:
+                    first = g.block_first(hb[h])
+                    if first:
+                        return first[0]
+                return None
+    return None
+
+
 def walk(fn, model, start=None, stop=None, follow_loops=False, max_steps=5000, state=None, _depth=0):
     """follow the event graph from `start` (default ENTRY); every two-way branch is decided by
     evaluating its condition on the model.  Returns (events, end, undecided_conditions) where events
@@ -444,17 +486,47 @@ def walk(fn, model, start=None, stop=None, follow_loops=False, max_steps=5000, s
                 return out, 'stop@%d' % nid, undec
             out.append(nid)
             if n['k'] == 'CXXThrowExpr':
-                return out, 'throw:%s@%d' % (n.get('throw_t'), nid), undec
+                thrown = n.get('throw_t') if not n.get('rethrow') else model.get('#exception')
+                hv = find_handler(fn, g, v, thrown) if thrown else None
+                if hv is None:
+                    return out, 'throw:%s@%d' % (thrown, nid), undec
+                model['#exception'] = thrown
+                seen.discard(hv)
+                v = hv
+                continue
+            if n['k'] == 'CXXMemberCallExpr' and n['callee']['name'] == 'at' and n['callee'].get('classq') in ('std::vector', 'std::basic_string', 'std::array') and \
+                    n.get('obj') is not None and n.get('args'):
+                # bounds-checked access: out_of_range when the model says the index is not below the size
+                sz = model.get(ev.R.render(n['obj']) + '.size')
+                try:
+                    ix = ev.ev(n['args'][0])
+                except OutOfRange:
+                    ix = None
+                if isinstance(sz, int) and isinstance(ix, int) and not isinstance(ix, bool) and ix >= sz:
+                    hv = find_handler(fn, g, v, 'std::out_of_range')
+                    if hv is None:
+                        return out, 'throw:std::out_of_range@%d' % nid, undec
+                    model['#exception'] = 'std::out_of_range'
+                    seen.discard(hv)
+                    v = hv
+                    continue
             if n['k'] in ('CallExpr', 'CXXMemberCallExpr') and n.get('callee', {}).get('inrepo') and _depth < 3:
                 cf = fn.prog.funcs.get(n['callee']['usr'])
-                if is_throwing_helper(cf):
+                if is_throwing_helper(cf) or is_own_lookup(fn, n, cf):
                     try:
                         m2 = translate_model(fn, ev, n, cf, model)
                         _, end2, und2 = walk(cf, m2, follow_loops=follow_loops, max_steps=max_steps, _depth=_depth + 1)
                     except OutOfRange:
                         raise
                     if end2.startswith('throw:'):
-                        return out, 'throw:%s@%d' % (end2[6:].split('@')[0], nid), undec
+                        thrown = end2[6:].split('@')[0]
+                        hv = find_handler(fn, g, v, thrown)
+                        if hv is None:
+                            return out, 'throw:%s@%d' % (thrown, nid), undec
+                        model['#exception'] = thrown
+                        seen.discard(hv)
+                        v = hv
+                        continue
                     if end2.startswith('undecided') or end2 == 'loop':
                         undec.append((nid, {'helper %s' % cf.name: 'o'}))
                         return out, 'undecided@%d' % nid, undec
